@@ -22,12 +22,19 @@ def alpha(v):
         return {"t": "int", "i": v}
     if isinstance(v, str):
         return {"t": "str", "s": v}
+    if isinstance(v, list) and COLL[0]:
+        return {"t": "ilist", "e": list(v)} if all(isinstance(x, int) and not isinstance(x, bool) for x in v) else {"t": "alien", "s": repr(v)[:40]}
     if isinstance(v, list):
         return {"t": "list", "n": 1} if v == [1] else {"t": "list", "n": -len(v)}
     return {"t": "alien", "s": repr(v)[:40]}
 
 
+COLL = [False]          # projecting for a collection-typed alias configuration (lists of ints are values there)
+
+
 def gamma(v):
+    if v["t"] == "ilist":
+        return list(v["e"])
     return v["i"] if v["t"] == "int" else v["s"]
 
 
@@ -52,6 +59,14 @@ def make_host(cfg):
         fb = [1]
         kw["fallback"] = fb
     alias = (DeprecatedAlias if cfg["dep"] else Alias)(PATHS[cfg["path"]], **kw)
+    if cfg.get("coll"):
+        # ts: List[int] is the target, `as_` (singular "a"... the library's own naming) a List[int] alias of it with element helpers
+        from typing import List
+        alias = Alias("ts", passthrough=cfg["pt"])
+        ns = {"__annotations__": {"ts": List[int], "aliases": List[int]}, "aliases": alias}
+        cls = spec_class(type("CollHost", (), ns))
+        cls(ts=[1])
+        return cls, (lambda: cls(ts=[1])), None
     if cfg["host"] == "plain":
         def __init__(self):
             self.t = 1
@@ -100,6 +115,8 @@ def tdel(obj, path):
 
 
 def state(obj, path):
+    if COLL[0]:
+        return {"target": alpha(obj.__dict__.get("ts")), "ov": alpha(obj.__dict__.get("__spec_classes_Alias_aliases_override"))}
     try:
         t = alpha(tget(obj, path))
     except (AttributeError, KeyError):
@@ -108,6 +125,9 @@ def state(obj, path):
 
 
 def run_path(cfg, path):
+    COLL[0] = bool(cfg.get("coll"))
+    if COLL[0]:
+        return run_coll_path(cfg, path)
     cls, new, fb = make_host(cfg)
     with warnings.catch_warnings():
         warnings.simplefilter("ignore")
@@ -155,7 +175,49 @@ def run_path(cfg, path):
     return {"cfg": cfg, "steps": steps}
 
 
+def run_coll_path(cfg, path):
+    cls, new, _ = make_host(cfg)
+    obj = new()
+    steps = []
+    for a in path:
+        res, val, orig_same = "ok", None, True
+        try:
+            op = a["op"]
+            if op == "read_alias":
+                val = obj.aliases
+            elif op == "write_alias":
+                obj.aliases = gamma(a["v"])
+            elif op == "delete_alias":
+                del obj.aliases
+            elif op == "read_target":
+                val = obj.ts
+            elif op == "write_target":
+                obj.ts = gamma(a["v"])
+            else:
+                before = state(obj, "t")
+                if op == "cow_alias":
+                    new_obj = obj.with_aliases(gamma(a["v"]))
+                elif op == "cow_item_alias":
+                    new_obj = obj.with_alias(gamma(a["v"]))
+                elif op == "cow_item_target":
+                    new_obj = obj.with_t(gamma(a["v"]))
+                else:
+                    new_obj = copy.deepcopy(obj)
+                # the receiver is as before AND shares neither its target list nor its override list with the copy
+                shared = any(x is not None and any(x is y for y in (new_obj.__dict__.get("ts"), new_obj.__dict__.get("__spec_classes_Alias_aliases_override")))
+                             for x in (obj.__dict__.get("ts"), obj.__dict__.get("__spec_classes_Alias_aliases_override")))
+                orig_same = state(obj, "t") == before and new_obj is not obj and not shared
+                obj = new_obj
+        except Exception as e:  # noqa: BLE001
+            res = type(e).__name__
+        steps.append({"a": a, "res": res, "val": alpha(val), "st": state(obj, "t"), "fresh": True, "orig_same": orig_same, "warns": 0})
+    COLL[0] = False
+    return {"cfg": cfg, "steps": steps}
+
+
 def enabled(cfg, a):
+    if cfg.get("coll"):
+        return True
     if a["op"] == "cow_alias":
         return cfg["host"] == "spec"
     if a["op"] == "cow_target":
